@@ -841,6 +841,49 @@ def run_limit(ctx):
                       lambda: {"limit": seq[0], "n": n, "n_passing": npass,
                                "first": results[seq[0]], "rebuilt": np.array(ds2.filter.all)},
                       message="a rebuilt dataset with the same limit selected other events")
+            # ---- the filters are reset on the long-lived dataset (its filter arrays have
+            # been read before); limits and scatter requests afterwards must give what a
+            # dataset that never had other filters gives
+            if idx % 2 == 0:
+                ds.reset_filter()
+                # (reset_filter() puts the switches, the limit and the polygon list back to
+                # their defaults and clears the manual exclusions; range settings stay in the
+                # configuration - the reference dataset gets exactly the current settings)
+                def fresh_like(d):
+                    import dclab
+                    ref_ = dclab.new_dataset({k: v.copy() for k, v in cols.items()})
+                    for k_, v_ in dict(d.config["filtering"]).items():
+                        if k_ != "hierarchy parent":
+                            ref_.config["filtering"][k_] = v_
+                    ref_.apply_filter()
+                    return ref_
+                for limit in [int(v) for v in rng.choice([1, 2, n // 2, n - 1, n, n + 3], 2)]:
+                    limit = max(limit, 0)
+                    ds.config["filtering"]["limit events"] = limit
+                    ds.apply_filter()
+                    got = np.array(ds.filter.all)
+                    ref = fresh_like(ds)
+                    exp = np.array(ref.filter.all)
+                    ctx.check("limit.reproducible", M.same_bits(got, exp),
+                              lambda: {"limit": limit, "n": n, "history": "filters, limits, "
+                                       "reset_filter(), limit", "selected": int(got.sum()),
+                                       "fresh_dataset_selects": int(exp.sum()),
+                                       "after_reset": got, "fresh": exp},
+                              message=f"after reset_filter() 'limit events'={limit} selects "
+                                      f"{int(got.sum())} events, a fresh dataset {int(exp.sum())}")
+                    if feats:
+                        p = G.gen_scatter_call(rng, feats, int(exp.sum()))
+                        r1, e1 = _scatter(ds, p)
+                        r2, e2 = _scatter(ref, p)
+                        ok = (e1 is None) == (e2 is None) and (e1 is not None
+                                                               or _same_result(r1, r2))
+                        ctx.check("scatter.reproducible", ok,
+                                  lambda: {"call": p, "n": n, "history": "reset_filter()",
+                                           "exc_after_reset": repr(e1), "exc_fresh": repr(e2),
+                                           "after_reset": r1, "fresh": r2},
+                                  message="get_downsampled_scatter after reset_filter() "
+                                          "differs from a fresh dataset")
+                ctx.count("limit_cases_with_reset_filter")
             if idx % 499 == 0:
                 ctx.sample({"kind": "limit", "n": n, "n_passing": npass, "limits": seq})
         except Exception as exc:
